@@ -1,0 +1,66 @@
+//go:build verif
+
+package txpool
+
+import (
+	"github.com/oasisprotocol/oasis-core/go/common/crypto/hash"
+	"github.com/oasisprotocol/oasis-core/go/runtime/host/protocol"
+)
+
+// Exports of the package-private main queue for the external
+// deterministic-simulation harness (build tag "verif" only).
+
+// VerifMainQueue wraps the package-private main queue.
+type VerifMainQueue struct {
+	q *mainQueue
+}
+
+// NewVerifMainQueue creates a new main queue with the given capacity.
+func NewVerifMainQueue(capacity int) *VerifMainQueue {
+	return &VerifMainQueue{q: newMainQueue(capacity)}
+}
+
+// NewVerifTx creates transaction queue metadata for the given raw transaction.
+func NewVerifTx(raw []byte) *TxQueueMeta {
+	return &TxQueueMeta{raw: raw, hash: hash.NewFromBytes(raw)}
+}
+
+// Add calls mainQueue.Add.
+func (v *VerifMainQueue) Add(tx *TxQueueMeta, meta *protocol.CheckTxMetadata) error {
+	return v.q.Add(tx, meta)
+}
+
+// Schedule calls mainQueue.Schedule.
+func (v *VerifMainQueue) Schedule(limit int) []*TxQueueMeta { return v.q.Schedule(limit) }
+
+// ScheduleExtra calls mainQueue.ScheduleExtra.
+func (v *VerifMainQueue) ScheduleExtra(limit int) []*TxQueueMeta { return v.q.ScheduleExtra(limit) }
+
+// HandleTxsUsed calls mainQueue.HandleTxsUsed.
+func (v *VerifMainQueue) HandleTxsUsed(hashes []hash.Hash) { v.q.HandleTxsUsed(hashes) }
+
+// Get calls mainQueue.Get.
+func (v *VerifMainQueue) Get(h hash.Hash) (*TxQueueMeta, bool) { return v.q.Get(h) }
+
+// All calls mainQueue.All.
+func (v *VerifMainQueue) All() []*TxQueueMeta { return v.q.All() }
+
+// Size calls mainQueue.Size.
+func (v *VerifMainQueue) Size() int { return v.q.Size() }
+
+// Drain calls mainQueue.Drain.
+func (v *VerifMainQueue) Drain() []*TxQueueMeta { return v.q.Drain() }
+
+// Forward calls the scheduler's forward directly (sender-forward operation).
+func (v *VerifMainQueue) Forward(sender string, seq uint64) {
+	v.q.mu.Lock()
+	defer v.q.mu.Unlock()
+	v.q.scheduler.forward(sender, seq)
+}
+
+// Reset calls the scheduler's reset directly.
+func (v *VerifMainQueue) Reset() {
+	v.q.mu.Lock()
+	defer v.q.mu.Unlock()
+	v.q.scheduler.reset()
+}
